@@ -37,6 +37,7 @@ from mc import core, ref
 
 PROPERTY = 'C03'
 GUARD = ['numqi.sim.state', 'numqi.sim.dm']  # argument-immutability oracle (mc.seams.ImmutabilityGuard)
+GUARD_LAYOUT = ['numqi.sim.state', 'numqi.sim.dm']  # memory-layout metamorphic oracle (same wrapper)
 LEVEL = 'model_checking'
 RULE = ('primitives: every (ordered target tuple of size 1..3, disjoint control subset) on n qubits x all matrix units of the '
         'operator (polarisation set where the map is sesquilinear) x all basis vectors / matrix units of the state, plus generic atoms; '
